@@ -5,3 +5,6 @@ mod value;
 
 pub(crate) use stream::transcode;
 pub(crate) use value::Value;
+
+#[cfg(feature = "verif")]
+pub(crate) use stream::Error;
